@@ -81,9 +81,9 @@ def capMax (cbMax n : Nat) : Nat := if cbMax = 0 then n else min cbMax n
 
 /-- a content reader that is ready: it serves the bytes of `body` at `pos`, at most `max`
     (and at most `cbMax`); at the end of the content it reports end-of-stream -/
-def readerGives (r : Resp) (pos max : Nat) : CbRes :=
-  if r.body.length ≤ pos then .eos
-  else .data (capMax r.cbMax (min max (r.body.length - pos)))
+def readerGives (body : Bytes) (cbMax pos max : Nat) : CbRes :=
+  if body.length ≤ pos then .eos
+  else .data (capMax cbMax (min max (body.length - pos)))
 
 /-- `response->crc (crc_cls, pos, buf, max)`: the application reader for `callback`
     responses, `file_reader` (always ready, no per-call cap) for `file` responses -/
@@ -93,8 +93,8 @@ def crcCall (r : Resp) (pos max : Nat) (app : AppAns) : CbRes :=
     match app with
     | .err => .err
     | .notReady => .data 0
-    | .ready => readerGives r pos max
-  | _ => readerGives { r with cbMax := 0 } pos max
+    | .ready => readerGives r.body r.cbMax pos max
+  | _ => readerGives r.body 0 pos max
 
 def hexDigitUp (n : Nat) : UInt8 := if n < 10 then UInt8.ofNat (48 + n) else UInt8.ofNat (55 + n)
 
